@@ -414,45 +414,73 @@ theorem uniform_diff (lo hi : Rat) (n : Nat) (hn : 2 ≤ n) (bl br : Bool) (i : 
   push_cast
   ring
 
-theorem uniform_cellSide (lo hi : Rat) (hlh : lo < hi) (n : Nat) (hn : 2 ≤ n) (bl br : Bool) :
-    (uniformAxis lo hi n bl br).cellSide Tol.exact = some ((hi - lo) / ((n : Rat) - halfCount bl br)) := by
+theorem isClose_self (t : Tol) (h1 : 0 ≤ t.atol) (h2 : 0 ≤ t.rtol) (a : Rat) : isClose t a a = true := by
+  have hr : 0 ≤ rabs a := by unfold rabs; split_ifs <;> linarith
+  unfold isClose
+  simp only [sub_self, decide_eq_true_eq]
+  have : rabs 0 = 0 := by simp [rabs]
+  rw [this]
+  positivity
+
+/-- `cell_sides` of the uniform axis, for EVERY non-negative tolerance of `np.allclose` (in
+particular NumPy's defaults, which the code and the driver use). -/
+theorem uniform_cellSide (t : Tol) (ht1 : 0 ≤ t.atol) (ht2 : 0 ≤ t.rtol) (lo hi : Rat) (hlh : lo < hi)
+    (n : Nat) (hn : 2 ≤ n) (bl br : Bool) :
+    (uniformAxis lo hi n bl br).cellSide t = some ((hi - lo) / ((n : Rat) - halfCount bl br)) := by
   have hpos := halfCount_lt bl br n hn
   have hh : 0 < (hi - lo) / ((n : Rat) - halfCount bl br) := div_pos (by linarith) hpos
   have hn' : (uniformAxis lo hi n bl br).n = n := rfl
-  have hu : (uniformAxis lo hi n bl br).isUniform Tol.exact = true := by
+  have hu : (uniformAxis lo hi n bl br).isUniform t = true := by
     unfold Part1.isUniform
     rw [List.all_eq_true]
     intro i _
     have := uniform_diff lo hi n hn bl br 0
     rw [uniform_diff lo hi n hn bl br i, this]
-    exact isClose_exact_self _
+    exact isClose_self t ht1 ht2 _
   unfold Part1.cellSide
   rw [hu]
   simp only [Bool.not_true, Bool.false_eq_true, if_false]
   rw [hn', if_pos (show 1 < n by omega), uniform_stride lo hi n hn, if_neg (ne_of_gt hh)]
 
-theorem uniform_nodesOnBdry (lo hi : Rat) (hlh : lo < hi) (n : Nat) (hn : 2 ≤ n) (bl br : Bool) :
-    (uniformAxis lo hi n bl br).nodesOnBdry Tol.exact = (bl, br) := by
+theorem onBdry_zero (rtol s : Rat) : onBdry rtol 0 s = true := by simp [onBdry]
+
+theorem onBdry_half (rtol h : Rat) (hr : rtol < 1 / 2) (hh : 0 < h) : onBdry rtol (h / 2) h = false := by
+  unfold onBdry
+  have h1 : ¬ (h / 2 = 0) := by intro h0; linarith
+  have h2 : ¬ (h / 2 ≤ rtol * h) := by intro hle; nlinarith
+  simp [h1, h2]
+
+/-- Detected flags of the uniform axis = requested flags, for every relative tolerance
+`0 ≤ rtol < 1/2` of the boundary test (the code uses `1e-5`). -/
+theorem uniform_nodesOnBdry (rtol : Rat) (hr : rtol < 1 / 2) (lo hi : Rat) (hlh : lo < hi) (n : Nat)
+    (hn : 2 ≤ n) (bl br : Bool) :
+    (uniformAxis lo hi n bl br).nodesOnBdry rtol = (bl, br) := by
   have hpos := halfCount_lt bl br n hn
   have hh : 0 < (hi - lo) / ((n : Rat) - halfCount bl br) := div_pos (by linarith) hpos
   have hn' : (uniformAxis lo hi n bl br).n = n := rfl
   have hc : ((n - 1 : Nat) : Rat) = (n : Rat) - 1 := by rw [Nat.cast_sub (by omega)]; simp
   have key : hi = lo + ((n : Rat) - halfCount bl br) * ((hi - lo) / ((n : Rat) - halfCount bl br)) := by
     field_simp; ring
-  unfold Part1.nodesOnBdry
-  rw [hn', uniform_nodes lo hi n hn, uniform_nodes lo hi n hn, hc]
+  have hd0 := uniform_diff lo hi n hn bl br 0
+  have hd1 := uniform_diff lo hi n hn bl br (n - 2)
+  have e : n - 2 + 1 = n - 1 := by omega
+  rw [e] at hd1
+  simp only [Nat.zero_add] at hd0
+  have hc0 := uniform_nodes lo hi n hn bl br 0
+  have hcn := uniform_nodes lo hi n hn bl br (n - 1)
+  rw [hc] at hcn
   have hl : (uniformAxis lo hi n bl br).lo = lo := rfl
   have hhi : (uniformAxis lo hi n bl br).hi = hi := rfl
-  rw [hl, hhi]
+  unfold Part1.nodesOnBdry
+  simp only [hn', if_pos (show 1 < n by omega), hd0, hd1, hl, hhi]
+  rw [hc0, hcn]
   generalize (hi - lo) / ((n : Rat) - halfCount bl br) = h at *
-  ext
-  · simp only
-    rw [Bool.eq_iff_iff, isClose_exact_iff]
-    cases bl <;> simp <;> nlinarith
-  · simp only
-    rw [Bool.eq_iff_iff, isClose_exact_iff]
-    cases bl <;> cases br <;> simp [halfCount] at key ⊢ <;> nlinarith
-
+  have hL : lo + ((0 : Nat) + if bl = true then 0 else 1 / 2) * h - lo = if bl then 0 else h / 2 := by
+    cases bl <;> simp <;> ring
+  have hR : hi - (lo + ((n : Rat) - 1 + if bl = true then 0 else 1 / 2) * h) = if br then 0 else h / 2 := by
+    cases bl <;> cases br <;> simp [halfCount] at key ⊢ <;> linarith
+  rw [hL, hR]
+  cases bl <;> cases br <;> simp [onBdry_zero, onBdry_half rtol h hr hh]
 
 theorem roundHalfEven_int (n : Int) : roundHalfEven (n : Rat) = n := by
   unfold roundHalfEven
@@ -526,6 +554,13 @@ theorem getInt_neg (P : Part1) (k : Nat) (hk : k < P.n) :
   have h3 : (k : Int) - P.n + P.n = k := by omega
   unfold Part1.getInt
   simp only [h1, h2, h3, if_true, if_false]
+
+/-- integers outside `-n ≤ k < n` are rejected -/
+theorem getInt_out_of_range (P : Part1) (k : Int) (hk : k < -(P.n : Int) ∨ (P.n : Int) ≤ k) :
+    P.getInt k = none := by
+  unfold Part1.getInt
+  simp only []
+  split_ifs with h1 h2 <;> first | rfl | omega
 
 theorem filter_range_getD {α} (l : List α) (d : α) (q : α → Bool) :
     ((List.range l.length).filter (fun i => q (l.getD i d))).filterMap (fun i => l[i]?) = l.filter q := by
@@ -609,11 +644,11 @@ theorem index_degenerate (P : Part1) (hv : Valid P) (hn : P.n = 1) (hd : P.lo = 
   rw [if_pos ⟨hb, by omega⟩, if_pos hb]
   simp
 
-theorem nonuniform_default (n : Nat) (c : Nat → Rat) (hn : 2 ≤ n)
+theorem nonuniform_default (rtol : Rat) (hr : rtol < 1 / 2) (n : Nat) (c : Nat → Rat) (hn : 2 ≤ n)
     (hm : ∀ i, i + 1 < n → c i < c (i + 1)) (bl br : Bool) :
     ∃ P, nonuniformAxis n c none none bl br = some P ∧ Valid P ∧ P.n = n ∧ P.c = c ∧
       P.bdryFrac = (if bl then 1 / 2 else 1, if br then 1 / 2 else 1) ∧
-      P.nodesOnBdry Tol.exact = (bl, br) := by
+      P.nodesOnBdry rtol = (bl, br) := by
   have h1 := hm 0 (by omega)
   have h2 := hm (n - 2) (by omega)
   have e : n - 2 + 1 = n - 1 := by omega
@@ -642,11 +677,19 @@ theorem nonuniform_default (n : Nat) (c : Nat → Rat) (hn : 2 ≤ n)
         (c (n - 1) - c (n - 2))) = _
     cases bl <;> cases br <;> simp <;> (try constructor) <;> field_simp <;> norm_num
   · unfold Part1.nodesOnBdry
-    show (isClose Tol.exact (c 0) (if bl then c 0 else c 0 - (c 1 - c 0) / 2),
-      isClose Tol.exact (c (n - 1)) (if br then c (n - 1) else c (n - 1) + (c (n - 1) - c (n - 2)) / 2)) = _
-    ext
-    · simp only; rw [Bool.eq_iff_iff, isClose_exact_iff]; cases bl <;> simp <;> linarith
-    · simp only; rw [Bool.eq_iff_iff, isClose_exact_iff]; cases br <;> simp <;> linarith
+    show (onBdry rtol (c 0 - (if bl then c 0 else c 0 - (c 1 - c 0) / 2)) (if 1 < n then c 1 - c 0 else _),
+      onBdry rtol ((if br then c (n - 1) else c (n - 1) + (c (n - 1) - c (n - 2)) / 2) - c (n - 1))
+        (if 1 < n then c (n - 1) - c (n - 2) else _)) = _
+    rw [if_pos (show 1 < n by omega), if_pos (show 1 < n by omega)]
+    have hL : c 0 - (if bl then c 0 else c 0 - (c 1 - c 0) / 2) = if bl then 0 else (c 1 - c 0) / 2 := by
+      cases bl <;> simp
+    have hR : (if br then c (n - 1) else c (n - 1) + (c (n - 1) - c (n - 2)) / 2) - c (n - 1) =
+        if br then 0 else (c (n - 1) - c (n - 2)) / 2 := by
+      cases br <;> simp
+    rw [hL, hR]
+    cases bl <;> cases br <;>
+      simp [onBdry_zero, onBdry_half rtol _ hr (show 0 < c 1 - c 0 by linarith),
+        onBdry_half rtol _ hr (show 0 < c (n - 1) - c (n - 2) by linarith)]
 
 
 theorem fromGrid_default (n : Nat) (c : Nat → Rat) (hn : 2 ≤ n) :
@@ -930,6 +973,326 @@ theorem normIdx_ellipsis (pre post : List Idx) (ndim : Nat) (hlen : pre.length +
   simp only [List.length_append, List.length_cons, List.length_replicate]
   have : ndim + 1 - (pre.length + (post.length + 1)) = ndim - pre.length - post.length := by omega
   rw [this, if_neg (by omega)]
+
+
+
+/-- Python's clamping of one slice bound for a positive step: `None` ↦ default, `k ≥ 0 ↦ min k n`,
+`k < 0 ↦ max (k + n) 0`. -/
+def clampBound (n : Nat) (dflt : Int) : Option Int → Int
+  | none => dflt
+  | some k => if k < 0 then max (k + n) 0 else min k n
+
+theorem sliceIndices_pos_spec (start stop : Option Int) (st : Int) (hst : 0 < st) (n : Nat) :
+    sliceIndices start stop st n = (clampBound n 0 start, clampBound n n stop) := by
+  have h1 : ¬ st < 0 := by omega
+  unfold sliceIndices clampBound
+  cases start <;> cases stop <;> simp [h1]
+
+theorem clampBound_range (n : Nat) (d : Int) (hd : 0 ≤ d ∧ d ≤ n) (b : Option Int) :
+    0 ≤ clampBound n d b ∧ clampBound n d b ≤ n := by
+  unfold clampBound
+  cases b with
+  | none => exact hd
+  | some k => simp only []; split_ifs <;> omega
+
+/-- `partition[start:stop:step]` for ARBITRARY bounds (`None`, negative, beyond the ends) and any
+step `≥ 1` or `None`: with `(s, e)` the clamped bounds, the slice is rejected iff `s ≥ e` or
+`start == n`, and otherwise it is `subPart P s e st`. -/
+theorem getSlice_general (P : Part1) (hv : Valid P) (start stop : Option Int) (step : Option Int)
+    (st : Nat) (hst : 1 ≤ st) (hstep : step.getD 1 = (st : Int)) :
+    let s := clampBound P.n 0 start
+    let e := clampBound P.n P.n stop
+    P.getSlice start stop step =
+      if s < e then some (subPart P s.toNat e.toNat st) else none := by
+  intro s e
+  have hs := clampBound_range P.n 0 ⟨le_refl _, by omega⟩ start
+  have he := clampBound_range P.n P.n ⟨by omega, le_refl _⟩ stop
+  have hstp : (0 : Int) < st := by omega
+  by_cases hse : s < e
+  · rw [if_pos hse]
+    -- reduce to the case of natural bounds
+    have key := getSlice_core P hv s.toNat e.toNat st (by omega) (by omega) hst step hstep
+    have e1 : ((s.toNat : Nat) : Int) = s := by omega
+    have e2 : ((e.toNat : Nat) : Int) = e := by omega
+    rw [e1, e2] at key
+    rw [← key]
+    -- both sides run the same code once the clamped bounds agree and no early rejection fires
+    unfold Part1.getSlice
+    have hS : sliceIndices start stop 1 P.n = (s, e) := sliceIndices_pos_spec start stop 1 (by omega) P.n
+    have hS' : sliceIndices start stop (st : Int) P.n = (s, e) := sliceIndices_pos_spec start stop _ hstp P.n
+    have hT : sliceIndices (some s) (some e) 1 P.n = (s, e) := by
+      rw [sliceIndices_pos_spec _ _ 1 (by omega)]; simp [clampBound]; omega
+    have hT' : sliceIndices (some s) (some e) (st : Int) P.n = (s, e) := by
+      rw [sliceIndices_pos_spec _ _ _ hstp]; simp [clampBound]; omega
+    have c1 : ((start.isSome && start == stop) || start == some (P.n : Int)) = false := by
+      rw [Bool.or_eq_false_iff]
+      constructor
+      · cases start with
+        | none => simp
+        | some a =>
+          cases stop with
+          | none => simp
+          | some b =>
+            simp only [Option.isSome_some, Bool.true_and]
+            by_cases hab : a = b
+            · exfalso; subst hab
+              simp only [s, e, clampBound] at hse
+              split_ifs at hse <;> omega
+            · simp [hab]
+      · cases start with
+        | none => simp
+        | some a =>
+          by_cases han : a = (P.n : Int)
+          · exfalso; subst han
+            have hsn : s = (P.n : Int) := by
+              simp only [s, clampBound]
+              rw [if_neg (by omega)]; omega
+            omega
+          · simp [han]
+    have c2 : (((some s).isSome && (some s == some e)) || (some s == some (P.n : Int))) = false := by
+      have : s ≠ e := by omega
+      have : s ≠ (P.n : Int) := by omega
+      simp [*]
+    rw [c1, c2]
+    simp only [Bool.false_eq_true, if_false, hstep, hS, hS', hT, hT']
+  · rw [if_neg hse]
+    unfold Part1.getSlice
+    split_ifs with h1
+    · rfl
+    · simp only [hstep]
+      rw [if_neg (by omega), sliceIndices_pos_spec start stop 1 (by omega) P.n]
+      simp only []
+      rw [if_pos (by omega)]
+
+
+theorem wrapIndex_spec (n : Nat) (k : Int) (j : Nat) :
+    wrapIndex n k = some j ↔ (0 ≤ k ∧ k < n ∧ (j : Int) = k) ∨ (-(n : Int) ≤ k ∧ k < 0 ∧ (j : Int) = k + n) := by
+  unfold wrapIndex
+  split_ifs with h1 h2
+  · simp only [Option.some.injEq]; constructor
+    · intro h; left; omega
+    · rintro (h | h) <;> omega
+  · simp only [Option.some.injEq]; constructor
+    · intro h; right; omega
+    · rintro (h | h) <;> omega
+  · simp only [reduceCtorEq, false_iff]; rintro (h | h) <;> omega
+
+/-- second normalisation applied to an already normalised list is the identity -/
+theorem gridFlags_ofNormalized (fl : List (Bool × Bool)) (ndim : Nat) (h : fl.length = ndim) :
+    (Flags.ofNormalized fl).gridFlags ndim = some fl := by
+  unfold Flags.ofNormalized Flags.gridFlags
+  simp only [List.length_map]
+  by_cases h2 : ndim = 1 ∧ fl.length = 2
+  · omega
+  · rw [if_neg h2, if_neg (by omega)]
+    simp only [List.map_map, Option.some.injEq]
+    have : (FlagEntry.both ∘ fun (p : Bool × Bool) => FlagEntry.pair p.1 p.2) = id := by
+      funext p; rfl
+    rw [this, List.map_id]
+
+theorem loopFlags_length (f : Flags) (ndim : Nat) (fl : List (Bool × Bool))
+    (h : f.loopFlags ndim = some fl) : fl.length = ndim := by
+  unfold Flags.loopFlags at h
+  cases f with
+  | global b => simp at h; rw [← h]; simp
+  | seq l =>
+    simp only at h
+    split_ifs at h with h1 h2
+    · match l, h with
+      | [x, y], h => simp at h; rw [← h]; simp; omega
+    · simp at h; rw [← h]; simp [h2]
+
+/-- the two differently written normalisations agree on every raw value the first one accepts -/
+theorem gridFlags_of_loopFlags (f : Flags) (ndim : Nat) (fl : List (Bool × Bool))
+    (h : f.loopFlags ndim = some fl) : f.gridFlags ndim = some fl := by
+  unfold Flags.loopFlags at h
+  unfold Flags.gridFlags
+  cases f with
+  | global b => exact h
+  | seq l =>
+    simp only at h ⊢
+    split_ifs at h with h1 h2
+    · rw [if_pos ⟨h1.1, h1.2.1⟩]; exact h
+    · by_cases h3 : ndim = 1 ∧ l.length = 2
+      · omega
+      · rw [if_neg h3, if_neg (by omega)]; exact h
+
+theorem mapM_wrapIndex_lt (n : Nat) (l : List Int) (idx : List Nat)
+    (h : l.mapM (wrapIndex n) = some idx) : ∀ k ∈ idx, k < n := by
+  induction l generalizing idx with
+  | nil => simp at h; subst h; simp
+  | cons a rest ih =>
+    rw [List.mapM_cons] at h
+    cases ha : wrapIndex n a with
+    | none => simp [ha] at h
+    | some j =>
+      cases hr : rest.mapM (wrapIndex n) with
+      | none => simp [ha, hr] at h
+      | some js =>
+        simp [ha, hr] at h
+        subst h
+        intro k hk
+        rcases List.mem_cons.mp hk with rfl | hk'
+        · have := (wrapIndex_spec n a k).mp ha
+          omega
+        · exact ih js hr k hk'
+
+/-- list index with arbitrary (also negative) entries, stated on the wrapped cell numbers -/
+theorem getList_general (P : Part1) (hv : Valid P) (l : List Int) (first : Nat) (rest : List Nat)
+    (hw : l.mapM (wrapIndex P.n) = some (first :: rest))
+    (hinc : (first :: rest).Pairwise (· < ·)) :
+    ∃ Q, P.getList l = some Q ∧ Valid Q ∧
+      Q.n = rest.length + 1 ∧ (∀ i, Q.c i = P.c ((first :: rest).getD i 0)) ∧
+      Q.lo = P.bdry first ∧ Q.hi = P.bdry ((first :: rest).getLast (by simp) + 1) := by
+  have hlt : ∀ k ∈ first :: rest, k < P.n := mapM_wrapIndex_lt P.n l _ hw
+  have hm := hw
+  have hget : ∀ i (hi : i < (first :: rest).length), (first :: rest).getD i 0 = (first :: rest)[i] := by
+    intro i hi; simp [List.getD, List.getElem?_eq_getElem hi]
+  have hlast : (first :: rest).getD ((first :: rest).length - 1) 0 = (first :: rest).getLast (by simp) := by
+    rw [hget _ (by simp), List.getLast_eq_getElem]
+  let Q : Part1 := ⟨(first :: rest).length, fun i => P.c ((first :: rest).getD i 0), P.bdry first,
+    P.bdry ((first :: rest).getLast (by simp) + 1)⟩
+  have hQ : Valid Q := by
+    refine ⟨by simp [Q], ?_, ?_, ?_⟩
+    · intro i hi
+      have hi' : i + 1 < (first :: rest).length := hi
+      show P.c ((first :: rest).getD i 0) < P.c ((first :: rest).getD (i + 1) 0)
+      rw [hget i (by omega), hget (i + 1) hi']
+      have h1 : (first :: rest)[i] < (first :: rest)[i + 1] :=
+        List.pairwise_iff_getElem.mp hinc i (i + 1) (by omega) hi' (by omega)
+      exact hv.c_strict h1 (hlt _ (List.getElem_mem _))
+    · show P.bdry first ≤ P.c ((first :: rest).getD 0 0)
+      simp only [List.getD_cons_zero]
+      exact node_ge_bdry P hv first (hlt first (by simp))
+    · show P.c ((first :: rest).getD ((first :: rest).length - 1) 0) ≤ _
+      rw [hlast]
+      exact node_le_bdry P hv _ (hlt _ (List.getLast_mem _))
+  refine ⟨Q, ?_, hQ, by simp [Q], fun i => rfl, rfl, rfl⟩
+  unfold Part1.getList
+  rw [hm]
+  simp only [Option.bind_eq_bind, Option.bind_some, List.head?_cons, List.getLast?_eq_getLast_of_ne_nil (List.cons_ne_nil _ _)]
+  have : (⟨(first :: rest).toArray.size, fun i => P.c ((first :: rest).toArray.getD i 0), P.bdry first,
+      P.bdry ((first :: rest).getLast (List.cons_ne_nil _ _) + 1)⟩ : Part1) = Q := by
+    simp [Q]
+  rw [this]
+  exact mk?_of_valid Q hQ
+
+
+
+
+theorem nodesOnBdryOld_fails :
+    (uniformAxis 64 (64 + 1 / 1024) 4 false false).nodesOnBdryOld Tol.numpy = (true, true) ∧
+    (uniformAxis 64 (64 + 1 / 1024) 4 false false).nodesOnBdry (1 / 100000) = (false, false) := by
+  constructor
+  · simp only [Part1.nodesOnBdryOld, uniformAxis, gminOf, gmaxOf, isClose, Tol.numpy, rabs]
+    norm_num
+  · exact uniform_nodesOnBdry _ (by norm_num) _ _ (by norm_num) 4 (by decide) false false
+
+
+theorem gridInsertAt_map (P : Part) (i : Nat) (parts : List Part) :
+    gridInsertAt (P.map Part1.vec) i (parts.map fun Q => Q.map Part1.vec) = (insertAt P i parts).map Part1.vec := by
+  induction parts generalizing P i with
+  | nil => rfl
+  | cons Q rest ih =>
+    simp only [List.map_cons, gridInsertAt, insertAt, List.length_map]
+    rw [← ih]
+    simp [List.map_append, List.map_take, List.map_drop]
+
+theorem setInsertAt_map (P : Part) (i : Nat) (parts : List Part) :
+    setInsertAt (P.map Part1.intv) i (parts.map fun Q => Q.map Part1.intv) = (insertAt P i parts).map Part1.intv := by
+  induction parts generalizing P i with
+  | nil => rfl
+  | cons Q rest ih =>
+    simp only [List.map_cons, setInsertAt, insertAt, List.length_map]
+    rw [← ih]
+    simp [List.map_append, List.map_take, List.map_drop]
+
+theorem assemble_split (R : Part) (hv : ∀ p ∈ R, Valid p) :
+    assemble (R.map Part1.vec) (R.map Part1.intv) = some R := by
+  unfold assemble
+  rw [if_neg (by simp)]
+  have : List.zip (R.map Part1.vec) (R.map Part1.intv) = R.map (fun p => (p.vec, p.intv)) := by
+    induction R with
+    | nil => rfl
+    | cons a rest ih => simp [List.zip_cons_cons, ih (fun p hp => hv p (by simp [hp]))]
+  rw [this, List.mapM_map]
+  have := mapM_some_of_forall (fun p : Part1 => Part1.mk? ⟨p.vec.1, p.vec.2, p.intv.1, p.intv.2⟩) id R
+    (fun p hp => by simpa [Part1.vec, Part1.intv] using mk?_of_valid p (hv p hp))
+  simpa [Function.comp_def] using this
+
+
+theorem insertAt_mem (P : Part) (i : Nat) (hi : i ≤ P.length) (parts : List Part)
+    (hP : ∀ p ∈ P, Valid p) (hQ : ∀ Q ∈ parts, ∀ p ∈ Q, Valid p) :
+    ∀ p ∈ insertAt P i parts, Valid p := by
+  rw [insertAt_block P i hi]
+  intro p hp
+  simp only [List.mem_append, List.mem_flatten] at hp
+  rcases hp with (hp | ⟨Q, hQm, hpQ⟩) | hp
+  · exact hP p (List.mem_of_mem_take hp)
+  · exact hQ Q hQm p hpQ
+  · exact hP p (List.mem_of_mem_drop hp)
+
+/-- the grid path (grid.py) and the set path (domain.py) of `insert` stay aligned -/
+theorem insert2_eq (P : Part) (index : Int) (parts : List Part)
+    (hP : ∀ p ∈ P, Valid p) (hQ : ∀ Q ∈ parts, ∀ p ∈ Q, Valid p) :
+    insert2 P index parts = insert P index parts := by
+  unfold insert2 gridInsert setInsert insert
+  simp only [List.length_map]
+  by_cases h : index < -(P.length : Int) ∨ (P.length : Int) < index
+  · simp [h]
+  · simp only [h, if_false, Option.bind_eq_bind, Option.bind_some]
+    rw [gridInsertAt_map, setInsertAt_map]
+    apply assemble_split
+    apply insertAt_mem P _ _ parts hP hQ
+    split_ifs <;> omega
+
+
+theorem filterMap_getElem_map {α β} (f : α → β) (l : List α) (idx : List Nat) :
+    idx.filterMap (fun i => (l.map f)[i]?) = (idx.filterMap fun i => l[i]?).map f := by
+  have : (fun (i : Nat) => (l.map f)[i]?) = fun (i : Nat) => (l[i]?).map f := by funext i; simp
+  rw [this, List.map_filterMap]
+
+theorem squeeze2_core (P : Part) (rng : List Nat) (hP : ∀ p ∈ P, Valid p) :
+    assemble
+      (((List.range P.length).filter fun i =>
+          !rng.contains i || decide (1 < ((P.map Part1.vec).getD i (0, fun _ => 0)).1)).filterMap
+        fun i => (P.map Part1.vec)[i]?)
+      (((List.range P.length).filter fun i =>
+          !rng.contains i || decide (1 < ((P.map Part1.vec).getD i (0, fun _ => 0)).1)).filterMap
+        fun i => (P.map Part1.intv)[i]?) =
+    some (((List.range P.length).filter fun i =>
+        !rng.contains i || decide (1 < (P.getD i ⟨0, fun _ => 0, 0, 0⟩).n)).filterMap fun i => P[i]?) := by
+  have hk : ((List.range P.length).filter fun i =>
+        !rng.contains i || decide (1 < ((P.map Part1.vec).getD i (0, fun _ => 0)).1)) =
+      (List.range P.length).filter fun i =>
+        !rng.contains i || decide (1 < (P.getD i ⟨0, fun _ => 0, 0, 0⟩).n) := by
+    apply List.filter_congr
+    intro i hi
+    rw [List.mem_range] at hi
+    simp [List.getD, hi, Part1.vec]
+  rw [hk, filterMap_getElem_map, filterMap_getElem_map]
+  apply assemble_split
+  intro p hp
+  rw [List.mem_filterMap] at hp
+  obtain ⟨i, _, hi⟩ := hp
+  exact hP p (List.mem_of_getElem? hi)
+
+/-- the set path (`self.set[new_indcs]`) and the grid path (`self.grid.squeeze(axis)`) of `squeeze`
+select the same axes -/
+theorem squeeze2_eq (P : Part) (axis : Option (List Int)) (hP : ∀ p ∈ P, Valid p) :
+    squeeze2 P axis = squeeze P axis := by
+  unfold squeeze2 squeeze
+  simp only [List.length_map]
+  cases axis with
+  | none =>
+    simp only [Option.bind_eq_bind, Option.bind_some]
+    exact squeeze2_core P _ hP
+  | some l =>
+    cases hl : l.mapM (wrapIndex P.length) with
+    | none => simp [hl]
+    | some rng =>
+      simp only [hl, Option.bind_eq_bind, Option.bind_some]
+      exact squeeze2_core P rng hP
 
 
 end OdlModel.Partition
